@@ -42,6 +42,24 @@ def vfWrong (skip : List String) (orderFull orderSkip : List String)
   (samples.filter (fun (_, _, advF, advS, dF, dS) => !(advF == advS && closeDrawing dF dS))).map (fun (loc, n, _) => loc ++ ":" ++ n)
 
 
+/-- interpolatable masters (`compileInterpolatable*FromDS`) built with a skip list vs without, master by master — the
+    sources may be SPARSE in any way (a listed glyph drawn in a non-default source only, missing from the default source):
+    in EVERY compiled master no listed name is in the glyph order, in the metrics or in the character map; the order is the
+    order without the list up to the listed names; every remaining glyph keeps its advance and drawing; the character map is
+    the one without the list restricted to the remaining glyphs.
+    One entry per master: (name, orderFull, orderSkip, hmtxNamesSkip, samples as in `vfWrong`, cmapFull, cmapSkip) -/
+def ifWrong (skip : List String)
+    (masters : List (String × List String × List String × List String ×
+      List (String × String × Int × Int × List (List (Int × Int)) × List (List (Int × Int))) ×
+      List (Nat × String) × List (Nat × String))) : List String :=
+  masters.flatMap (fun (m, orderFull, orderSkip, hmtxSkip, samples, cmapFull, cmapSkip) =>
+    ((orderSkip.filter (fun n => skip.contains n)).map (fun n => m ++ ":<listed glyph in glyph order>:" ++ n)) ++
+    ((hmtxSkip.filter (fun n => skip.contains n)).map (fun n => m ++ ":<listed glyph in hmtx>:" ++ n)) ++
+    ((cmapSkip.filter (fun e => skip.contains e.2)).map (fun e => m ++ ":<listed glyph in cmap>:" ++ e.2)) ++
+    (if cmapSkip == cmapFull.filter (fun e => !skip.contains e.2) then [] else [m ++ ":<cmap>"]) ++
+    (vfWrong skip orderFull orderSkip samples).map (fun s => m ++ ":" ++ s))
+
+
 /-! ### a decidable certificate for the hypotheses of `C13_vf_render` -/
 
 /-- the family is well-formed in the sense of `C13_vf_render` (`Props/C13VFCert.lean`: a checked certificate implies
